@@ -42,6 +42,10 @@ type seqExec struct {
 	nontrivial                     *bool
 	noFinalRestart                 bool
 	gcHook                         func(phase string, op Op, begin, end int)
+	finalHook                      func()
+	opKey                          int          // key index the current check is about (-1 = none)
+	tainted                        map[int]bool // keys of hash-collision groups hit by a recorded known finding
+	knownViol                      *Violation
 }
 
 type appendRec struct {
@@ -77,6 +81,45 @@ func replySub(kind string, r Reply) string {
 	return s
 }
 
+// absorbKnownCollision: a violation observed on a key of a forced hash-collision group is
+// classified ("collide:" + mechanism); if it is an instance of a recorded known finding the
+// whole group is taken out of the comparison and the world continues, so that the known
+// finding cannot hide a different violation.
+func (x *seqExec) absorbKnownCollision() bool {
+	v := x.viol
+	if v == nil || x.opKey < 0 || x.opKey >= len(x.m.Keys) || !x.m.Keys[x.opKey].Collide {
+		return false
+	}
+	if !strings.HasPrefix(v.Sub, "collide:") {
+		v.Sub = "collide:" + v.Sub
+	}
+	if matchKnown(v, x.plan) == "" {
+		return false
+	}
+	if x.knownViol == nil {
+		x.knownViol = v
+	}
+	x.out.probe("known-finding-instances")
+	if x.tainted == nil {
+		x.tainted = map[int]bool{}
+	}
+	for _, grp := range x.plan.Groups {
+		in := false
+		for _, ki := range grp {
+			if ki == x.opKey {
+				in = true
+			}
+		}
+		if in {
+			for _, ki := range grp {
+				x.tainted[ki] = true
+			}
+		}
+	}
+	x.viol = nil
+	return true
+}
+
 func (x *seqExec) key(i int) string { return string(x.plan.Keys[i]) }
 
 func (x *seqExec) nowUnix() int64 { return x.g.W.Now().Unix() }
@@ -93,6 +136,8 @@ func runSeqHooked(plan *Plan, tape *simrt.Tape, setup func(x *seqExec), post fun
 	sim := NewSim(plan.Cfg, dir, tape)
 	x := &seqExec{plan: plan, out: out, sim: sim, lastHead: map[int]int{}}
 	x.m = NewModel(plan.Keys, plan.Cfg.CheckVHash)
+	installCollisions(plan)
+	defer func() { hashOverride = nil }()
 	for i, k := range plan.Keys {
 		if !plan.Cfg.served(bucketOf(&plan.Cfg, k)) {
 			x.m.Keys[i].Unserved = true
@@ -103,8 +148,6 @@ func runSeqHooked(plan *Plan, tape *simrt.Tape, setup func(x *seqExec), post fun
 			x.m.Keys[ki].Collide = true
 		}
 	}
-	installCollisions(plan)
-	defer func() { hashOverride = nil }()
 	sim.OnFS = x.onFS
 	if setup != nil {
 		setup(x)
@@ -134,9 +177,10 @@ func runSeqHooked(plan *Plan, tape *simrt.Tape, setup func(x *seqExec), post fun
 					g.H.Close()
 					return
 				}
+				x.opKey = -1
 				x.exec(op)
 				out.OpsRun++
-				if x.viol != nil {
+				if x.viol != nil && !x.absorbKnownCollision() {
 					return
 				}
 			}
@@ -153,6 +197,12 @@ func runSeqHooked(plan *Plan, tape *simrt.Tape, setup func(x *seqExec), post fun
 			x.checkDataFiles()
 			if x.viol != nil {
 				return
+			}
+			if x.finalHook != nil {
+				x.finalHook()
+				if x.viol != nil {
+					return
+				}
 			}
 			closing = true
 			g.H.Close()
@@ -212,6 +262,9 @@ func runSeqHooked(plan *Plan, tape *simrt.Tape, setup func(x *seqExec), post fun
 	}
 	if post != nil {
 		post(x)
+	}
+	if x.viol == nil && x.knownViol != nil {
+		x.viol = x.knownViol
 	}
 	out.absorb(sim)
 	out.Violation = x.viol
@@ -351,6 +404,11 @@ func (x *seqExec) reply(cmd []byte) Reply {
 
 func (x *seqExec) doSet(op Op) {
 	km := x.m.Keys[op.K]
+	x.opKey = op.K
+	if x.tainted[op.K] {
+		x.c.Do(cmdSet("set", x.key(op.K), uint64(op.Flag), int64(op.Rev), makeValue(op.V, op.vid()), false))
+		return
+	}
 	val := makeValue(op.V, op.vid())
 	verb := op.Verb
 	if verb == "" {
@@ -392,6 +450,11 @@ func (x *seqExec) doSet(op Op) {
 
 func (x *seqExec) doDel(op Op) {
 	km := x.m.Keys[op.K]
+	x.opKey = op.K
+	if x.tainted[op.K] {
+		x.c.Do(cmdDelete(x.key(op.K)))
+		return
+	}
 	t0 := x.nowUnix()
 	r := x.reply(cmdDelete(x.key(op.K)))
 	t1 := x.nowUnix()
@@ -403,6 +466,22 @@ func (x *seqExec) doDel(op Op) {
 		return
 	}
 	if km.Unserved {
+		return
+	}
+	if km.Collide {
+		// colliding keys: only what a get returns is specified (C13); the reply to a delete may
+		// reflect the other key sharing the tree slot. The key itself is not live afterwards.
+		live := false
+		for _, a := range km.Alts {
+			if a.live() {
+				live = true
+			}
+		}
+		if live {
+			km.Alts = []Alt{{Ver: -1, WriteID: op.ID, DataVer: -1}}
+			km.Writes = append(km.Writes, WriteRec{ID: op.ID, Ver: -1, Tomb: true})
+			x.writes++
+		}
 		return
 	}
 	if rule, msg := km.Delete(op.ID, t0, r.Status == "DELETED"); rule != "" {
@@ -421,6 +500,11 @@ func (x *seqExec) doDel(op Op) {
 
 func (x *seqExec) doIncr(op Op) {
 	km := x.m.Keys[op.K]
+	x.opKey = op.K
+	if x.tainted[op.K] {
+		x.c.Do(cmdIncr(x.key(op.K), op.Delta))
+		return
+	}
 	t0 := x.nowUnix()
 	r := x.reply(cmdIncr(x.key(op.K), op.Delta))
 	t1 := x.nowUnix()
@@ -460,6 +544,11 @@ func (x *seqExec) doIncr(op Op) {
 
 func (x *seqExec) doGet(k int) {
 	km := x.m.Keys[k]
+	x.opKey = k
+	if x.tainted[k] {
+		x.c.Do(cmdGet(x.key(k)))
+		return
+	}
 	r := x.reply(cmdGet(x.key(k)))
 	if x.viol != nil {
 		return
@@ -472,6 +561,10 @@ func (x *seqExec) doGet(k int) {
 }
 
 func (x *seqExec) observeGet(km *KeyModel, k int, items []RItem) {
+	x.opKey = k
+	if x.tainted[k] {
+		return
+	}
 	var it *RItem
 	for i := range items {
 		if items[i].Key == x.key(k) {
@@ -560,6 +653,9 @@ func (x *seqExec) doMeta(k int, extended bool) {
 	q := "?"
 	if extended {
 		q = "??"
+	}
+	if km.Collide {
+		return // versions / tombstone visibility of colliding keys are unspecified
 	}
 	name := q + x.key(k)
 	if len(name) > 250 {
@@ -670,6 +766,9 @@ func (x *seqExec) verifyAll(phase string, afterRestart bool) {
 				}
 			}
 			v.Msg = phase + ": " + v.Msg
+			if x.absorbKnownCollision() {
+				continue
+			}
 			break
 		}
 	}
